@@ -21,6 +21,14 @@ func (r *MacroRule) RunPass(ctx *Context, pass Pass) {
 		}
 	}
 	r.Expr.RunPass(ctx, pass)
+
+	if pass == GenerateGrammar {
+		// Expand the macro once in a scratch mode so that a cycle is reported
+		// even if no token or fragment uses the macro.
+		ctx.CurrentLexerMode.Push(mode.New(""))
+		r.NFACons(ctx)
+		ctx.CurrentLexerMode.Pop()
+	}
 }
 
 func (r *MacroRule) NFACons(ctx *Context) *mode.NFAComposite {
